@@ -437,14 +437,14 @@ static void DecodeSJmp(Word Index) {
         ArgStr[1].str.p_str[l] = '\0';
         Dest = EvalStrIntExpressionOffsWithFlags(&ArgStr[1], 1, UInt32, &OK, &Flags);
         if (OK) {
-            if (!mSymbolQuestionable(Flags) && (Dest & 3)) {
+            if (!mFirstPassUnknownOrQuestionable(Flags) && (Dest & 3)) {
                 WrError(ErrNum_NotAligned);
             } else {
                 Dest = (Dest - (EProgCounter() + 2)) >> 2;
                 if ((EProgCounter() & 3) < 2) {
                     Dest++;
                 }
-                if (!mSymbolQuestionable(Flags) && ((Dest < 0) || (Dest > 255))) {
+                if (!mFirstPassUnknownOrQuestionable(Flags) && ((Dest < 0) || (Dest > 255))) {
                     WrError(ErrNum_JmpDistTooBig);
                 } else {
                     WAsmCode[0] = 0x7000 + (Index << 8) + (Dest & 0xff);
@@ -597,14 +597,14 @@ static void DecodeLrm(Word Index) {
         ArgStr[2].str.p_str[l] = '\0';
         Dest = EvalStrIntExpressionOffsWithFlags(&ArgStr[2], 1, UInt32, &OK, &Flags);
         if (OK) {
-            if (!mSymbolQuestionable(Flags) && (Dest & 3)) {
+            if (!mFirstPassUnknownOrQuestionable(Flags) && (Dest & 3)) {
                 WrError(ErrNum_NotAligned);
             } else {
                 Dest = (Dest - (EProgCounter() + 2)) >> 2;
                 if ((EProgCounter() & 3) < 2) {
                     Dest++;
                 }
-                if (!mSymbolQuestionable(Flags) && ((Dest < 0) || (Dest > 255))) {
+                if (!mFirstPassUnknownOrQuestionable(Flags) && ((Dest < 0) || (Dest > 255))) {
                     WrError(ErrNum_JmpDistTooBig);
                 } else {
                     WAsmCode[0] = 0x7000 + (RegZ << 8) + (Dest & 0xff);
